@@ -11,8 +11,8 @@
 EXTENDS Clauses, Json, IOUtils
 
 Traces == JsonDeserialize(IOEnv.VERIF_IN)
-VARIABLES tid, l, heap, env, applied, flats, fails, nobs
-vars == <<tid, l, heap, env, applied, flats, fails, nobs>>
+VARIABLES tid, l, heap, env, applied, flats, fails, nobs, expect
+vars == <<tid, l, heap, env, applied, flats, fails, nobs, expect>>
 
 Clean(L) == [k |-> L.k, ref |-> L.ref, refs |-> L.refs, rt |-> L.rt]
 F(clause, obj, info) == [clause |-> clause, obj |-> obj, info |-> ToString(info)]
@@ -35,7 +35,7 @@ AddOpEv(e) ==
                     \cup When(e.ret_same /\ e.last_same, Fail("C02.return", e.id, <<e.ret_same, e.last_same>>))
   IN /\ heap' = IF known THEN DoAddOp(heap, e.c, e.id, rec, after) ELSE heap
      /\ fails' = fails \cup Tag(cl)
-     /\ UNCHANGED <<env, applied, flats, nobs>>
+     /\ UNCHANGED <<env, applied, flats, nobs, expect>>
 
 \* ----------------------------------------------------------------- AddSub
 CmapFn(cm, src, new) ==
@@ -98,7 +98,7 @@ AddSubEv(e) ==
                 THEN AppendKid([heap EXCEPT ![e.s].home = e.c, ![e.s].link = after], e.c, e.s)
                 ELSE IF ok THEN Resync(e, DoAddSub(heap, e.c, e.s, f, after), f) ELSE heap
      /\ fails' = fails \cup Tag(cl)
-     /\ UNCHANGED <<env, applied, flats, nobs>>
+     /\ UNCHANGED <<env, applied, flats, nobs, expect>>
 
 CopyCircEv(e) ==
   LET known == e.s \in DOMAIN heap
@@ -110,7 +110,7 @@ CopyCircEv(e) ==
      /\ fails' = fails \cup Tag(When(ok, Fail("C05.map", e.id, <<"sources", src, "copied", DOMAIN f, "new", new>>))
                                \cup (IF ok THEN IsoClauses(e, f, "") ELSE {}))
      /\ applied' = IF e.s \in applied THEN applied \cup {e.id} ELSE applied
-     /\ UNCHANGED <<env, flats, nobs>>
+     /\ UNCHANGED <<env, flats, nobs, expect>>
 
 \* ------------------------------------------------------------------ Apply
 ApplyEv(e) ==
@@ -182,7 +182,7 @@ ApplyEv(e) ==
   IN /\ heap' = IF wellformedNew THEN H2 ELSE heap
      /\ fails' = fails \cup Tag(cl)
      /\ applied' = applied \cup {c}
-     /\ UNCHANGED <<env, flats, nobs>>
+     /\ UNCHANGED <<env, flats, nobs, expect>>
 
 \* ---------------------------------------------------------------- Flatten
 FlattenEv(e) ==
@@ -208,11 +208,11 @@ FlattenEv(e) ==
   IN /\ heap' = IF ok THEN H2 ELSE heap
      /\ fails' = fails \cup Tag(cl)
      /\ flats' = flats \cup {c}
-     /\ UNCHANGED <<env, applied, nobs>>
+     /\ UNCHANGED <<env, applied, nobs, expect>>
 
 \* -------------------------------------------------------------------- Obs
 \* observations other than the full battery carry no data to judge; their effect (none is allowed) shows in later batteries
-LightObsEv(e) == UNCHANGED <<heap, env, applied, flats, fails, nobs>>
+LightObsEv(e) == UNCHANGED <<heap, env, applied, flats, fails, nobs, expect>>
 
 \* C18: the drawing shows the schedule.  Rows = requested order followed by the remaining occupied channels; labels; width =
 \* max(1, latest end) + 1; every component sits at the start time of its operation under the drawing's durations (compact
@@ -240,20 +240,54 @@ DrawEv(e) ==
              \* renders has its component (components are not emitted in listing order: compare as multisets)
              \cup (IF Range(d.ops) \subseteq DOMAIN H /\ d.rows = rows
                    THEN LET drawn == {o \in Range(d.ops) : H[o].kind \notin NotDrawn}
-                            expect(o) == LET rs == IF H[o].kind \in FirstRowOnly THEN {rowOf(H[o].qs[1])} ELSE {rowOf(H[o].qs[j]) : j \in 1..Len(H[o].qs)} IN
+                            placeOf(o) == LET rs == IF H[o].kind \in FirstRowOnly THEN {rowOf(H[o].qs[1])} ELSE {rowOf(H[o].qs[j]) : j \in 1..Len(H[o].qs)} IN
                                          [x |-> StartOf(H, E, o), y10 |-> -((MaxOf(rs) - 1) * 12) - 5, h10 |-> (MaxOf(rs) - MinOf(rs)) * 12 + 10]
                             pos(cp) == [x |-> cp.x, y10 |-> cp.y10, h10 |-> cp.h10]     \* horizontal position and rows (the drawn width is the icon's business)
-                            vals == {expect(o) : o \in drawn} \cup {pos(d.comps[k]) : k \in 1..Len(d.comps)}
-                            nExp(v) == Cardinality({o \in drawn : expect(o) = v})
+                            vals == {placeOf(o) : o \in drawn} \cup {pos(d.comps[k]) : k \in 1..Len(d.comps)}
+                            nExp(v) == Cardinality({o \in drawn : placeOf(o) = v})
                             nGot(v) == Cardinality({k \in 1..Len(d.comps) : pos(d.comps[k]) = v})
                         IN UNION {When(nExp(v) = nGot(v), Fail("C18.x", c, <<"placement", v, "operations there", nExp(v), "components there", nGot(v)>>)) : v \in vals}
                    ELSE {})
   IN /\ fails' = fails \cup Tag(IF c \in DOMAIN heap THEN cl ELSE {})
-     /\ UNCHANGED <<heap, env, applied, flats, nobs>>
+     /\ UNCHANGED <<heap, env, applied, flats, nobs, expect>>
+\* library circuits, observed as constructed / unrolled / flattened: the later observation is compared with the earlier one
+\* it names (event index in the same trace)
+KindSeq(S) == [j \in 1..Len(S.order) |-> Ins(S.leaves[S.order[j]].kind, [k \in 1..Len(S.leaves[S.order[j]].qs) |-> Qt(S.leaves[S.order[j]].qs[k])], <<>>)]
+TimesOf(S) == [i \in DOMAIN S.leaves |-> <<S.leaves[i].start_c, S.leaves[i].dur_v>>]
+IdxOf(S)   == [i \in DOMAIN S.leaves |-> <<S.leaves[i].acq_q, S.leaves[i].acq_c>>]
+\* Named deviation S13: only the position of coordinate-shift annotations differs between the two listings / programs
+NoShift(s) == SelectSeq(s, LAMBDA x : x.name \notin {"SHIFT_COORDS", "CoordinateShiftOperation"})
+Variant(base, a, b) == IF NoShift(a) = NoShift(b) THEN base \o ".shift_moved" ELSE base
+LibraryClauses(e) ==
+  IF "phase" \notin DOMAIN e \/ e.compare = 0 THEN {}
+  ELSE LET p == Traces[tid][e.compare]  A == p.snap  B == e.snap
+           relinked == (e.c \o "#relinked") \in DOMAIN expect                \* S14: before flattening an operation referred to a block
+           R(name) == IF relinked THEN name \o ".relinked" ELSE name IN
+       IF e.phase = "unrolled"
+       THEN When(A.stim.status # "ok" \/ B.stim.flat = A.stim.flat,
+                 Fail(Variant("C08.identical", A.stim.flat, B.stim.flat), e.c, <<"exported instructions before", Len(A.stim.flat), "after unrolling", Len(B.stim.flat)>>))
+       ELSE IF e.phase = "flattened"
+       THEN When(B.order = A.order, Fail(R(Variant("C11.library.listing", KindSeq(A), KindSeq(B))), e.c, <<"listing order changed by flatten">>))
+            \cup When(DOMAIN A.leaves # DOMAIN B.leaves \/ TimesOf(B) = TimesOf(A), Fail(R("C11.library.schedule"), e.c, <<"schedule changed by flatten">>))
+            \cup When(DOMAIN A.leaves # DOMAIN B.leaves \/ IdxOf(B) = IdxOf(A), Fail(R("C11.library.indices"), e.c, <<"acquisition indices changed by flatten">>))
+            \cup When(A.stim.status # "ok" \/ B.stim.flat = A.stim.flat, Fail(R(Variant("C11.library.stim", A.stim.flat, B.stim.flat)), e.c, <<"exported program changed by flatten">>))
+       ELSE {}
+HasLinkToBlock(H, c) == \E i \in Subtree(H, c) \ {c} : H[i].link.k = "one" /\ H[i].link.ref \in DOMAIN H /\ H[H[i].link.ref].t = "comp"
+\* C06 for library circuits: the unrolled listing is exactly every block's listing repeated its count; the expectation is
+\* computed from the heap at the "constructed" observation and carried to the "unrolled" one in `expect`
 ObsEv(e) ==
   LET known == e.c \in DOMAIN heap
       cl == IF known THEN ObsClausesMarked(heap, env, e.c, e.snap, [applied |-> e.c \in applied, implicit |-> e.implicit]) ELSE {Fail("C02.unknown_circuit", e.c, <<>>)}
-  IN /\ fails' = fails \cup Tag(cl)
+      lib == IF known THEN LibraryClauses(e) ELSE {}
+      concat == IF known /\ "phase" \in DOMAIN e /\ e.phase = "unrolled" /\ e.c \in DOMAIN expect
+                THEN When(KindSeq(e.snap) = expect[e.c], Fail(Variant("C06.concat", KindSeq(e.snap), expect[e.c]), e.c, <<"unrolled listing", Len(e.snap.order), "n-fold concatenation", Len(expect[e.c])>>))
+                ELSE {}
+  IN /\ fails' = fails \cup Tag(cl \cup lib \cup concat)
+     /\ expect' = IF known /\ "phase" \in DOMAIN e /\ e.phase = "constructed"
+                   THEN [x \in DOMAIN expect \cup {e.c} |-> IF x = e.c THEN ExpandedListing(heap, env, e.snap, e.c) ELSE expect[x]]
+                   ELSE IF known /\ "phase" \in DOMAIN e /\ e.phase = "unrolled" /\ HasLinkToBlock(heap, e.c)
+                        THEN [x \in DOMAIN expect \cup {(e.c \o "#relinked")} |-> IF x = (e.c \o "#relinked") THEN <<>> ELSE expect[x]]
+                        ELSE expect
      /\ nobs' = nobs + 1
      /\ UNCHANGED <<heap, env, applied, flats>>
 
@@ -262,19 +296,31 @@ EnvEv(e) ==
               [] e.ev = "SetRep" -> [env EXCEPT !.rreg = Append(@, <<e.key, e.val>>)]
               [] e.ev = "Enter"  -> [env EXCEPT !.glob = Append(@, e.cfg)]
               [] e.ev = "Leave"  -> [env EXCEPT !.glob = SubSeq(@, 1, Len(@) - 1)]
-  /\ UNCHANGED <<heap, applied, flats, fails, nobs>>
+  /\ UNCHANGED <<heap, applied, flats, fails, nobs, expect>>
+
+\* a structure built outside the recorded calls is taken as it stands (content and reported relations are inputs)
+AdoptEv(e) ==
+  LET new == DOMAIN e.tree \ DOMAIN heap
+      R == [i \in new |->
+              IF e.tree[i].t = "comp"
+              THEN [Comp(Clean(e.links[i]), e.recs[i].rep, e.tree[i].home, e.tree[i].kids) EXCEPT !.home = IF i = e.c THEN None ELSE e.tree[i].home]
+              ELSE [Leaf(e.recs[i].kind, e.recs[i].qs, e.recs[i].chans, e.recs[i].dur, e.recs[i].tag, Clean(e.links[i]), e.tree[i].home)
+                      EXCEPT !.extra = e.recs[i].extra]]
+  IN /\ heap' = Extend(heap, R)
+     /\ UNCHANGED <<env, applied, flats, fails, nobs, expect>>
 
 ErrorEv(e) ==
   /\ fails' = fails \cup Tag({Fail("C00.exception", e.a, <<e.exc, e.msg>>)})
-  /\ UNCHANGED <<heap, env, applied, flats, nobs>>
+  /\ UNCHANGED <<heap, env, applied, flats, nobs, expect>>
 
-Init == tid = 1 /\ l = 1 /\ heap = <<>> /\ env = InitEnv /\ applied = {} /\ flats = {} /\ fails = {} /\ nobs = 0
+Init == tid = 1 /\ l = 1 /\ heap = <<>> /\ env = InitEnv /\ applied = {} /\ flats = {} /\ fails = {} /\ nobs = 0 /\ expect = <<>>
 
 Step ==
   /\ tid <= Len(Traces) /\ l <= Len(Traces[tid])
   /\ LET e == Traces[tid][l] IN
        CASE e.ev = "NewCircuit" -> /\ heap' = DoNewCircuit(heap, e.c, Clean(e.link), e.rep)
-                                   /\ UNCHANGED <<env, applied, flats, fails, nobs>>
+                                   /\ UNCHANGED <<env, applied, flats, fails, nobs, expect>>
+         [] e.ev = "Adopt"    -> AdoptEv(e)
          [] e.ev = "AddOp"    -> AddOpEv(e)
          [] e.ev = "AddSub"   -> AddSubEv(e)
          [] e.ev = "CopyCirc" -> CopyCircEv(e)
@@ -285,18 +331,18 @@ Step ==
          [] e.ev = "Obs" /\ e.what \notin {"full", "draw", "drawnc"} -> LightObsEv(e)
          [] e.ev \in {"SetDur", "SetRep", "Enter", "Leave"} -> EnvEv(e)
          [] e.ev = "Error"    -> ErrorEv(e)
-         [] OTHER -> /\ fails' = fails \cup Tag({Fail("C00.unknown_event", e.ev, <<>>)}) /\ UNCHANGED <<heap, env, applied, flats, nobs>>
+         [] OTHER -> /\ fails' = fails \cup Tag({Fail("C00.unknown_event", e.ev, <<>>)}) /\ UNCHANGED <<heap, env, applied, flats, nobs, expect>>
   /\ l' = l + 1 /\ tid' = tid
 
 NextTrace ==
   /\ tid <= Len(Traces) /\ l = Len(Traces[tid]) + 1
-  /\ tid' = tid + 1 /\ l' = 1 /\ heap' = <<>> /\ env' = InitEnv /\ applied' = {} /\ flats' = {}
+  /\ tid' = tid + 1 /\ l' = 1 /\ heap' = <<>> /\ env' = InitEnv /\ applied' = {} /\ flats' = {} /\ expect' = <<>>
   /\ UNCHANGED <<fails, nobs>>
 
 Done ==
   /\ tid = Len(Traces) + 1 /\ l = 1
   /\ JsonSerialize(IOEnv.VERIF_OUT, [traces |-> Len(Traces), nobs |-> nobs, fails |-> SetToSeq(fails)])
-  /\ l' = 2 /\ UNCHANGED <<tid, heap, env, applied, flats, fails, nobs>>
+  /\ l' = 2 /\ UNCHANGED <<tid, heap, env, applied, flats, fails, nobs, expect>>
 
 Next == Step \/ NextTrace \/ Done
 Spec == Init /\ [][Next]_vars
